@@ -487,7 +487,20 @@ func c17PriorConnection(c C17Case, ctrls []OrgbController, ci int) *Violation {
 	return nil
 }
 
+// checkC17 runs the case; one kind of outcome is run a second time before it counts. The OpenRGB client library reads a
+// controller description with a single Read call: on a heavily loaded machine that read can come back short, the library
+// then builds a controller with the wrong number of LEDs (seen once: 0) and every frame has the wrong length although HIDI
+// did nothing wrong. A frame-length mismatch therefore has to show up in two independent runs of the case.
 func checkC17(c C17Case) (nontrivial bool, v *Violation) {
+	nontrivial, v = checkC17Once(c)
+	if v != nil && v.Clause == "frame-mismatch" && strings.Contains(v.Message, "colours for") {
+		classify("frame length mismatch: case run a second time")
+		return checkC17Once(c)
+	}
+	return nontrivial, v
+}
+
+func checkC17Once(c C17Case) (nontrivial bool, v *Violation) {
 	fixture := os.Getenv("VERIF_HIDRAW_FIXTURE")
 	arrange := func(nums []int) ([]OrgbController, int, *Violation) {
 		own, other := 0, 1
